@@ -9,6 +9,7 @@
   subset cycle j < S = #selected, chain c < C = max(ch)+1 (as the implementation counts).
 -/
 import Proofs.Lemmas.MapsIndex
+import EmdModel.Cycles
 
 namespace C16
 open Maps
@@ -324,6 +325,31 @@ theorem none_iff_sample_to_chain (cv : List Int) (valids : List Bool) (hwf : WF 
       cv[i]? = some (-1) ∨ ∃ k : Nat, cv[i]? = some (k : Int) ∧ valids[k]! = false := by
   rw [sampleToChain_none]; exact none_iff_sample_to_subset cv valids hwf i
 
+/-- summary: for every existing sample i with cycle label l and every existing cycle k, each forward
+    map answers `none` exactly when the item is an unlabelled sample / (a sample of) an unselected
+    cycle; the subset→chain map never answers none (every subset cycle lies in a chain) -/
+theorem forward_none_iff (cv : List Int) (valids : List Bool) (hwf : WF cv valids.length) :
+    (∀ i, mapSampleToCycle cv i = .ok none ↔ cv[i]? = some (-1)) ∧
+    (∀ k, k < valids.length →
+      (mapCycleToSubset (subsetVector valids) k = .ok none ↔ valids[k]! = false)) ∧
+    (∀ i, mapSampleToSubset (subsetVector valids) cv i = .ok none ↔
+      cv[i]? = some (-1) ∨ ∃ k : Nat, cv[i]? = some (k : Int) ∧ valids[k]! = false) ∧
+    (∀ k, k < valids.length →
+      (mapCycleToChain (chainVector (subsetVector valids)) (subsetVector valids) k = .ok none ↔
+        valids[k]! = false)) ∧
+    (∀ i, mapSampleToChain (chainVector (subsetVector valids)) (subsetVector valids) cv i = .ok none ↔
+      cv[i]? = some (-1) ∨ ∃ k : Nat, cv[i]? = some (k : Int) ∧ valids[k]! = false) ∧
+    (∀ j, j < valids.count true →
+      ∃ c, mapSubsetToChain (chainVector (subsetVector valids)) j = .ok c ∧ 0 ≤ c) :=
+  ⟨fun i => none_iff_sample_to_cycle cv _ hwf i,
+   fun k hk => none_iff_cycle_to_subset valids k hk,
+   fun i => none_iff_sample_to_subset cv valids hwf i,
+   fun k hk => none_iff_cycle_to_chain valids k hk,
+   fun i => none_iff_sample_to_chain cv valids hwf i,
+   fun j hj => by
+     obtain ⟨c, h1, h2, _⟩ := total_subset_to_chain valids j hj
+     exact ⟨c, h1, h2⟩⟩
+
 /-! ## projections: each value lands on exactly the items that map to it, NaN elsewhere -/
 
 theorem project_cycles_to_samples (vals : Vals) (cv : List Int) (i : Nat) (r : Option Nat)
@@ -450,5 +476,16 @@ example : mapChainToSamples (chainVector (subsetVector validsEx)) (subsetVector 
 example : mapSampleToSubset (subsetVector validsEx) cvEx 4 = .ok none := rfl
 example : mapSampleToSubset (subsetVector validsEx) cvEx 0 = .ok none := rfl
 example : mapChainToCycle (chainVector (subsetVector validsEx)) (subsetVector validsEx) 0 = .ok [0] := rfl
+
+
+-- the hypothesis `WF` is met by an output of the cycle detector's model (C12): three cycles, all labelled
+def wEx (a b : Int) : Bool := decide (4 < (b - a).natAbs)
+example : Cycles.paint (Cycles.cvSegs wEx (fun _ => true) [1, 3, 6, 0, 2, 6, 1, 4]) = [0, 0, 0, 1, 1, 1, 2, 2] := by decide
+example : WF (Cycles.paint (Cycles.cvSegs wEx (fun _ => true) [1, 3, 6, 0, 2, 6, 1, 4])) 3 :=
+  wf_of_bounded _ 3 (by decide) (by decide) (by decide) (by decide)
+-- ... and with a rejected (unlabelled) middle segment: a gap between cycle 0 and cycle 1
+example : Cycles.paint (Cycles.cvSegs wEx (fun r => r.length != 2) [1, 3, 6, 0, 2, 7, 8, 9]) = [0, 0, 0, -1, -1, 1, 1, 1] := by decide
+example : WF (Cycles.paint (Cycles.cvSegs wEx (fun r => r.length != 2) [1, 3, 6, 0, 2, 7, 8, 9])) 2 :=
+  wf_of_bounded _ 2 (by decide) (by decide) (by decide) (by decide)
 
 end C16
